@@ -548,13 +548,14 @@ func CheckLedger(e *Env) {
 		e.FailP("C15", "close-only-own-descriptors", "tripwire-closed", "descriptor number(s) %v, reused by somebody else after netpoll's close, were closed again", dmg)
 		return
 	}
-	if vsys.NetpollOpen != 0 {
-		var open []string
-		for fd := range vsys.FDs {
-			if vsys.FDs[fd].Open && vsys.FDs[fd].Owner == vsys.OwnNetpoll {
-				open = append(open, fmt.Sprintf("%d(%s)", fd, vsys.FDs[fd].Kind))
-			}
+	vsys.Reconcile()
+	var open []string
+	for fd := range vsys.FDs {
+		if vsys.FDs[fd].Open && vsys.FDs[fd].Owner == vsys.OwnNetpoll {
+			open = append(open, fmt.Sprintf("%d(%s)", fd, vsys.FDs[fd].Kind))
 		}
+	}
+	if len(open) > 0 {
 		e.FailP("C15", "no-descriptor-left", "fd-leak/"+kindsOf(open), "after every connection, listener and poller was closed netpoll still holds %v", open)
 	}
 }
